@@ -10,6 +10,11 @@
      * `_internal_create_program` / `build_waveform` / `get_measurement_windows` of Table/Point/Function,
        AtomicMultiChannelPT, ParallelChannelPT, SequencePT, RepetitionPT, ForLoopPT, MappingPT as far as parameters,
        constraints and "is anything played" are concerned                           -> build, meas_at, run
+     * ConstantPT (atom kind KConst), ArithmeticPT with a scalar operand (Ari), ArithmeticAtomicPT (AAt, an
+       AMC of its two operands), TimeReversalPT (Rev, a transparent wrapper), per-channel dropping (`dr` = the set of
+       channels mapped to None), to_single_waveform (transparent for parameters: nothing to model)
+     * FunctionPT substitutes the supplied values *symbolically* (sympy): what is left of the expression is modelled
+       as a polynomial normal form over the names without value                      -> peval, res_closed
    Voltages and waveform contents are not modelled. *)
 From Coq Require Import ZArith QArith Bool List.
 Import ListNotations.
@@ -81,6 +86,46 @@ Fixpoint subst (m : list (ident * expr)) (e : expr) : expr :=
   | ESub a b => ESub (subst m a) (subst m b)
   | EMul a b => EMul (subst m a) (subst m b)
   end.
+
+(* ---------------------------------------------------------------- symbolic residual -------------------------- *)
+(* Expression.evaluate_symbolic(numbers): sympy substitutes and re-normalises.  On the + - * fragment the residual is
+   modelled by the expanded polynomial over the names that have no value: monomial = sorted list of names,
+   coefficients in Q; a term whose coefficient is 0 has disappeared (0*x -> 0, x - x -> 0). *)
+Definition mono := list ident.
+Definition poly := list (mono * Q).
+Fixpoint ins (x : ident) (m : mono) : mono :=
+  match m with
+  | [] => [x]
+  | y :: r => if N.leb x y then x :: m else y :: ins x r
+  end.
+Definition mmul (a b : mono) : mono := fold_right ins b a.
+Fixpoint mono_eqb (a b : mono) : bool :=
+  match a, b with
+  | [], [] => true
+  | x :: a', y :: b' => N.eqb x y && mono_eqb a' b'
+  | _, _ => false
+  end.
+Fixpoint padd1 (m : mono) (c : Q) (p : poly) : poly :=
+  match p with
+  | [] => [(m, c)]
+  | (m', c') :: r => if mono_eqb m m' then (m', Qred (c' + c)) :: r else (m', c') :: padd1 m c r
+  end.
+Definition padd (p q : poly) : poly := fold_right (fun t acc => padd1 (fst t) (snd t) acc) q p.
+Definition pscale (m : mono) (c : Q) (p : poly) : poly := map (fun t => (mmul m (fst t), Qred (c * snd t))) p.
+Definition pmul (p q : poly) : poly := fold_right (fun t acc => padd (pscale (fst t) (snd t) q) acc) [] p.
+Definition pneg (p : poly) : poly := map (fun t => (fst t, Qopp (snd t))) p.
+Fixpoint peval (rho : env) (e : expr) : poly :=
+  match e with
+  | EConst q => [([], q)]
+  | EVar x => match rho x with Some q => [([], q)] | None => [([x], 1%Q)] end
+  | EAdd a b => padd (peval rho a) (peval rho b)
+  | ESub a b => padd (peval rho a) (pneg (peval rho b))
+  | EMul a b => pmul (peval rho a) (peval rho b)
+  end.
+Definition is_nil {A} (l : list A) : bool := match l with [] => true | _ => false end.
+(* no name is left in the residual *)
+Definition res_closed (rho : env) (e : expr) : bool :=
+  forallb (fun t => is_nil (fst t) || Qeq_bool (snd t) 0) (peval rho e).
 
 (* ---------------------------------------------------------------- results -------------------------------------- *)
 Inductive err := Missing      (* ParameterNotProvidedException / ExpressionVariableMissingException *)
@@ -186,25 +231,38 @@ Definition zrange (a b st : Z) : list Z :=
   map (fun k => a + Z.of_nat k * st) (seq 0 (Z.to_nat n)).
 
 (* ---------------------------------------------------------------- templates ------------------------------------ *)
-Inductive akind := KTable | KPoint | KFunction.
+Inductive akind := KTable | KPoint | KFunction | KConst.   (* KConst: ConstantPT, reads = amplitudes aligned with chs *)
 
 Inductive pt :=
-| Atom (k : akind) (reads : list expr) (dur : expr) (cs : list constr) (ms : list (expr * expr))
+| Atom (k : akind) (chs : list ident) (reads : list expr) (dur : expr) (cs : list constr) (ms : list (expr * expr))
 | AMC (subs : list pt) (cs : list constr) (ms : list (expr * expr))         (* AtomicMultiChannelPT *)
-| Par (inner : pt) (ow : list expr)                                          (* ParallelChannelPT *)
+| Par (inner : pt) (ow : list (ident * expr))                                (* ParallelChannelPT: channel, value *)
+| Ari (inner : pt) (sa : list expr) (sc : list (ident * expr))               (* ArithmeticPT with a scalar operand:
+                                                                                 one expression (sa) or per channel (sc) *)
 | Seq (subs : list pt) (cs : list constr) (ms : list (expr * expr))
 | Rep (body : pt) (count : expr) (cs : list constr) (ms : list (expr * expr))
 | For (body : pt) (idx : ident) (start stop step : expr) (cs : list constr) (ms : list (expr * expr))
 | Map (inner : pt) (m : list (ident * expr)) (cs : list constr).
+
+(* ArithmeticAtomicPT(lhs, op, rhs, measurements): both operands are built, a waveform exists iff one of them has one;
+   windows = own + lhs + rhs; no constraints.  TimeReversalPT delegates to the inner template. *)
+Definition AAt (lhs rhs : pt) (ms : list (expr * expr)) : pt := AMC [lhs; rhs] [] ms.
+Definition Rev (inner : pt) : pt := Par inner [].
+
+(* channels: dr = channels mapped to None *)
+Definition adrop (chs dr : list ident) : bool := forallb (fun c => mem c dr) chs.
+Definition kept (dr : list ident) (l : list (ident * expr)) : list expr :=
+  map snd (filter (fun ce => negb (mem (fst ce) dr)) l).
 
 Definition remove_id (x : ident) (l : list ident) : list ident := filter (fun y => negb (N.eqb y x)) l.
 
 (* parameter_names of each class (as a list; compared as a set) *)
 Fixpoint pnames (p : pt) : list ident :=
   match p with
-  | Atom _ reads dur cs ms => vars_l reads ++ vars dur ++ mvars_l ms ++ cvars_l cs
+  | Atom _ _ reads dur cs ms => vars_l reads ++ vars dur ++ mvars_l ms ++ cvars_l cs
   | AMC subs cs ms => mvars_l ms ++ cvars_l cs ++ flat_map pnames subs
-  | Par inner ow => pnames inner ++ vars_l ow
+  | Par inner ow => pnames inner ++ vars_l (map snd ow)
+  | Ari inner sa sc => pnames inner ++ vars_l sa ++ vars_l (map snd sc)
   | Seq subs cs ms => cvars_l cs ++ mvars_l ms ++ flat_map pnames subs
   | Rep body count cs ms => pnames body ++ cvars_l cs ++ mvars_l ms ++ vars count
   | For body i a b st cs ms =>
@@ -233,9 +291,10 @@ Definition mk_map (inner : pt) (m : list (ident * expr)) (cs : list constr) : pt
 (* user-level tree -> constructed objects *)
 Fixpoint construct (p : pt) : pt :=
   match p with
-  | Atom k reads dur cs ms => Atom k reads dur cs ms
+  | Atom k chs reads dur cs ms => Atom k chs reads dur cs ms
   | AMC subs cs ms => AMC (map construct subs) cs ms
   | Par inner ow => Par (construct inner) ow
+  | Ari inner sa sc => Ari (construct inner) sa sc
   | Seq subs cs ms => Seq (map construct subs) cs ms
   | Rep body count cs ms => Rep (construct body) count cs ms
   | For body i a b st cs ms => For (construct body) i a b st cs ms
@@ -246,10 +305,14 @@ Fixpoint construct (p : pt) : pt :=
 Definition is_zero (s : scope) (e : expr) : result bool :=
   match eval (lookup s) e with Some q => Ok (Qeq_bool q 0) | None => Err Missing end.
 
-(* build_waveform of TablePT / PointPT / FunctionPT.  drop = every channel of the atom is mapped to None.
+Definition is_pos (s : scope) (e : expr) : result bool :=
+  match eval (lookup s) e with Some q => Ok (Qlt_b 0 q) | None => Err Missing end.
+
+(* build_waveform of TablePT / PointPT / FunctionPT / ConstantPT.  drop = every channel of the atom is mapped to None.
    Result: does a waveform exist. *)
-Definition build_atom (k : akind) (reads : list expr) (dur : expr) (cs : list constr) (s : scope) (drop : bool)
-  : result bool :=
+Definition build_atom (k : akind) (chs : list ident) (reads : list expr) (dur : expr) (cs : list constr) (s : scope)
+  (dr : list ident) : result bool :=
+  let drop := adrop chs dr in
   bind (validate s cs) (fun _ =>
   match k with
   | KTable =>
@@ -259,17 +322,32 @@ Definition build_atom (k : akind) (reads : list expr) (dur : expr) (cs : list co
       else if negb (subset (vars_l reads ++ vars dur ++ cvars_l cs) (skeys s)) then Err Missing
       else bind (eval_all s reads) (fun _ => bind (is_zero s dur) (fun z => Ok (negb z && negb drop)))
   | KPoint =>
-      (* all channels dropped -> None; duration == 0 -> None; then the entries are instantiated *)
+      (* all channels dropped -> None; duration == 0 -> None; then the entries (of all channels) are instantiated *)
       if drop then Ok false
       else bind (is_zero s dur) (fun z => if z then Ok false else bind (eval_all s reads) (fun _ => Ok true))
   | KFunction =>
-      (* channel dropped -> None; expression.evaluate_symbolic(parameters) iterates parameters.items() (as_dict);
-         duration evaluated; a free variable left in the expression -> ValueError *)
+      (* channel dropped -> None; expression.evaluate_symbolic(parameters) iterates parameters.items() (as_dict) and
+         substitutes symbolically; duration evaluated; a name left in the residual -> ValueError.  A name without
+         value that cancels (0*x) goes unnoticed. *)
       if drop then Ok false
       else if negb (forced_ok s) then Err Missing
       else bind (is_zero s dur) (fun _ =>
-           match eval_all s reads with Ok _ => Ok true | Err _ => Err Other end)
+           if forallb (res_closed (lookup s)) reads then Ok true else Err Other)
+  | KConst =>
+      (* duration evaluated first (also when dropped); duration > 0: amplitudes of the kept channels evaluated;
+         waveform iff a channel is kept *)
+      bind (is_pos s dur) (fun pos =>
+        if pos then bind (eval_all s (kept dr (combine chs reads))) (fun _ => Ok (negb drop)) else Ok false)
   end).
+
+(* ArithmeticPT._get_scalar_value: value._evaluate_to_time_dependent(scope) = evaluate_numeric( **scope ): every key of
+   the scope is evaluated (as_dict); a single expression is evaluated always, a per-channel mapping only for the
+   kept channels *)
+Definition scalar (s : scope) (es : list expr) : result unit :=
+  match es with
+  | [] => Ok tt
+  | _ => if negb (forced_ok s) then Err Missing else eval_all s es
+  end.
 
 (* MappingPT.map_parameter_values (used when the parent is atomic): eager *)
 Fixpoint eval_mapping (s : scope) (m : list (ident * expr)) : result (list (ident * Q)) :=
@@ -287,7 +365,7 @@ Definition eager (s : scope) (m : list (ident * expr)) (cs : list constr) : resu
 
 Definition ms_of (p : pt) : list (expr * expr) :=
   match p with
-  | Atom _ _ _ _ ms | AMC _ _ ms | Seq _ _ ms | Rep _ _ _ ms | For _ _ _ _ _ _ ms => ms
+  | Atom _ _ _ _ _ ms | AMC _ _ ms | Seq _ _ ms | Rep _ _ _ ms | For _ _ _ _ _ _ ms => ms
   | _ => []
   end.
 
@@ -306,13 +384,16 @@ Definition fold_unit {X} (f : X -> result unit) : list X -> result unit :=
     end.
 
 (* build_waveform in atomic context *)
-Fixpoint build (p : pt) (s : scope) (drop : bool) {struct p} : result bool :=
+Fixpoint build (p : pt) (s : scope) (drop : list ident) {struct p} : result bool :=
   match p with
-  | Atom k reads dur cs _ => build_atom k reads dur cs s drop
+  | Atom k chs reads dur cs _ => build_atom k chs reads dur cs s drop
   | AMC subs cs _ =>
       bind (validate s cs) (fun _ => fold_or (fun q => build q s drop) subs)
   | Par inner ow =>
-      bind (build inner s drop) (fun w => if w then bind (eval_all s ow) (fun _ => Ok true) else Ok false)
+      bind (build inner s drop) (fun w => if w then bind (eval_all s (kept drop ow)) (fun _ => Ok true) else Ok false)
+  | Ari inner sa sc =>
+      bind (build inner s drop) (fun w =>
+        if w then bind (scalar s (sa ++ kept drop sc)) (fun _ => Ok true) else Ok false)
   | Map inner m cs => bind (eager s m cs) (fun s' => build inner s' drop)
   | _ => Err Other
   end.
@@ -320,20 +401,23 @@ Fixpoint build (p : pt) (s : scope) (drop : bool) {struct p} : result bool :=
 (* get_measurement_windows in atomic context *)
 Fixpoint meas_at (p : pt) (s : scope) {struct p} : result unit :=
   match p with
-  | Atom _ _ _ _ ms => meas s ms
+  | Atom _ _ _ _ _ ms => meas s ms
   | AMC subs _ ms =>
       bind (meas s ms) (fun _ => fold_unit (fun q => meas_at q s) subs)
+  | Ari inner _ _ => meas_at inner s
   | Map inner m cs => bind (eager s m cs) (fun s' => meas_at inner s')
   | _ => Err Other
   end.
 
 (* _create_program: Ok b, b = something was appended to the program *)
-Fixpoint run (p : pt) (s : scope) (drop : bool) {struct p} : result bool :=
+Fixpoint run (p : pt) (s : scope) (drop : list ident) {struct p} : result bool :=
   match p with
-  | Atom _ _ _ _ _ | AMC _ _ _ =>
+  | Atom _ _ _ _ _ _ | AMC _ _ _ =>
       bind (build p s drop) (fun w => if w then bind (meas_at p s) (fun _ => Ok true) else Ok false)
   | Par inner ow =>
-      bind (if drop then Ok tt else eval_all s ow) (fun _ => run inner s drop)
+      bind (eval_all s (kept drop ow)) (fun _ => run inner s drop)
+  | Ari inner sa sc =>
+      bind (scalar s (sa ++ kept drop sc)) (fun _ => run inner s drop)
   | Seq subs cs ms =>
       bind (validate s cs) (fun _ => bind (meas s ms) (fun _ => fold_or (fun q => run q s drop) subs))
   | Rep body count cs ms =>
@@ -348,5 +432,5 @@ Fixpoint run (p : pt) (s : scope) (drop : bool) {struct p} : result bool :=
   end.
 
 (* PulseTemplate.create_program(parameters=values, channel_mapping=...) on the constructed template *)
-Definition create_program (p : pt) (values : list (ident * Q)) (drop : bool) : result bool :=
+Definition create_program (p : pt) (values : list (ident * Q)) (drop : list ident) : result bool :=
   run (construct p) (SDict values) drop.
